@@ -4,7 +4,7 @@
 //! usage: kv-harness run <PROP> <quick|thorough> <seed> <outdir> [shards]
 //!        kv-harness replay <PROP> <law> <f64 args as hex bits or decimal>...
 mod util;
-mod c20;
+include!(concat!(env!("OUT_DIR"), "/mods.rs"));
 
 use util::{Out, Rng};
 
@@ -25,10 +25,6 @@ pub struct Prop {
     pub extra: fn(&mut Rng, bool, &mut Out),
     /// (quick, thorough) number of law samples per unit weight
     pub law_budget: (u64, u64),
-}
-
-fn props() -> Vec<Prop> {
-    vec![c20::prop()]
 }
 
 fn run_laws(p: &Prop, rng: &mut Rng, thorough: bool, out: &mut Out) {
